@@ -1,6 +1,7 @@
 package main
 
 import (
+	"os"
 	"crypto/sha256"
 	"encoding/base64"
 	"encoding/json"
@@ -14,6 +15,10 @@ import (
 	"github.com/hyperledger/aries-framework-go/component/models/signature/suite"
 	"github.com/hyperledger/aries-framework-go/component/models/signature/suite/bbsblssignature2020"
 	"github.com/hyperledger/aries-framework-go/component/models/signature/suite/bbsblssignatureproof2020"
+	"github.com/hyperledger/aries-framework-go/component/models/signature/suite/ed25519signature2018"
+	sigutil "github.com/hyperledger/aries-framework-go/component/models/signature/util"
+	sigverifier "github.com/hyperledger/aries-framework-go/component/models/signature/verifier"
+	kmsapi "github.com/hyperledger/aries-framework-go/spi/kms"
 	"github.com/hyperledger/aries-framework-go/component/models/verifiable"
 
 	"verifharness/hx"
@@ -32,6 +37,10 @@ type CredCase struct {
 	Nonce   int      `json:"nonce"`
 	Key     int      `json:"key"`
 	Val     int      `json:"val"`
+	BBS     int      `json:"bbs,omitempty"`      // number of BbsBlsSignature2020 proofs (issuer keys), default 1
+	Ed      bool     `json:"ed,omitempty"`       // an Ed25519Signature2018 proof as well
+	EdFirst bool     `json:"ed_first,omitempty"` // ... added before the BBS+ proofs
+	Form    string   `json:"form,omitempty"`     // ids (every node has an id) | see buildCred
 }
 
 var subjectPool = []string{"givenName", "familyName", "gender", "image", "residentSince", "lprCategory", "lprNumber",
@@ -111,19 +120,76 @@ func in(s string, l []string) bool {
 var ctxs = []interface{}{"https://www.w3.org/2018/credentials/v1", "https://w3id.org/citizenship/v1",
 	"https://w3id.org/security/bbs/v1"}
 
+func nested(c *CredCase) bool { return strings.HasPrefix(c.form(), "blank-nested") }
+
+func ctxsOf(c *CredCase) []interface{} {
+	if nested(c) {
+		return []interface{}{ctxs[0], "https://www.w3.org/2018/credentials/examples/v1", ctxs[2]}
+	}
+
+	return ctxs
+}
+
+// nestedCred: a university degree credential whose subject and nested degree object are blank nodes.
+func nestedCred(c *CredCase) map[string]interface{} {
+	return map[string]interface{}{
+		"@context": ctxsOf(c), "id": fmt.Sprintf("https://example.gov/credentials/%d", 3732+c.Val),
+		"type": []interface{}{"VerifiableCredential", "UniversityDegreeCredential"}, "issuer": "did:example:489398593",
+		"issuanceDate": "2020-03-10T04:24:12.164Z",
+		"credentialSubject": map[string]interface{}{
+			"name": fieldValue("name", c.Val), "spouse": fmt.Sprintf("did:example:c276e12ec21ebfeb1f712ebc6f%d", c.Val),
+			"degree": map[string]interface{}{"type": "BachelorDegree", "name": fieldValue("degree", c.Val)},
+		},
+	}
+}
+
+func nestedFrame(c *CredCase) map[string]interface{} {
+	subj := map[string]interface{}{"@explicit": true, "name": map[string]interface{}{}}
+	if c.form() == "blank-nested" {
+		subj["degree"] = map[string]interface{}{}
+	}
+
+	return map[string]interface{}{
+		"@context": ctxsOf(c), "type": []interface{}{"VerifiableCredential", "UniversityDegreeCredential"}, "@explicit": true,
+		"issuer": map[string]interface{}{}, "issuanceDate": map[string]interface{}{}, "credentialSubject": subj,
+	}
+}
+
 func buildCred(c *CredCase) map[string]interface{} {
 	subj := map[string]interface{}{"id": "did:example:b34ca6cd37bbf23", "type": []interface{}{"PermanentResident", "Person"}}
 	for i, f := range c.Present {
 		subj[f] = fieldValue(f, c.Val+i)
 	}
 
+	credID := fmt.Sprintf("https://issuer.oidp.uscis.gov/credentials/%d", 83627465+c.Val)
+
+	// forms with blank nodes: the subject (and the credential) without id; a credential id that sorts after urn:bnid:
+	switch c.form() {
+	case "blank-subject":
+		delete(subj, "id")
+	case "blank-subject-uuid":
+		delete(subj, "id")
+
+		credID = fmt.Sprintf("urn:uuid:c17a%04d-1111-2222-3333-444455556666", c.Val)
+	case "no-ids":
+		delete(subj, "id")
+
+		credID = ""
+	case "blank-nested", "blank-nested-hidden":
+		return nestedCred(c)
+	}
+
 	doc := map[string]interface{}{
-		"@context": ctxs, "id": fmt.Sprintf("https://issuer.oidp.uscis.gov/credentials/%d", 83627465+c.Val),
+		"@context": ctxs, "id": credID,
 		"type": []interface{}{"VerifiableCredential", "PermanentResidentCard"}, "issuer": "did:example:489398593",
 		"issuanceDate": "2019-12-03T12:19:52Z", "credentialSubject": subj,
 	}
 	for i, f := range c.Top {
 		doc[f] = fieldValue(f, c.Val+20+i)
+	}
+
+	if credID == "" {
+		delete(doc, "id")
 	}
 
 	return doc
@@ -133,6 +199,10 @@ func buildFrame(c *CredCase) map[string]interface{} {
 	subj := map[string]interface{}{"@explicit": true, "type": []interface{}{"PermanentResident", "Person"}}
 	for _, f := range c.Reveal {
 		subj[f] = map[string]interface{}{}
+	}
+
+	if nested(c) {
+		return nestedFrame(c)
 	}
 
 	fr := map[string]interface{}{
@@ -157,31 +227,69 @@ func toMap(v interface{}) map[string]interface{} {
 }
 
 func runCred(kind string, c *CredCase, tr *hx.Trace) {
-	rec := &hx.Record{Kind: kind, Case: c}
-	fail := func(sig, detail string) {
-		if rec.Oracle != "fail" {
-			rec.Oracle, rec.Sig, rec.Detail = "fail", sig, detail
+	base := &hx.Record{Kind: kind, Case: c}
+	fail0 := func(sig, detail string) {
+		if base.Oracle != "fail" {
+			base.Oracle, base.Sig, base.Detail = "fail", sig, detail
 		}
 	}
-	obs := map[string]interface{}{}
-	rec.Observed = obs
+	obs0 := map[string]interface{}{}
+	base.Observed = obs0
+	put0 := func() {
+		base.Class = fmt.Sprintf("cred form=%s bbs=%d ed=%v present=%v reveal=%v", c.Form, c.nBBS(), c.Ed, c.Present, c.Reveal)
+		base.Dist = []string{"level:cred", "cred-form:" + c.form(), fmt.Sprintf("cred-bbs-proofs:%d", c.nBBS()), fmt.Sprintf("cred-ed25519:%v", c.Ed)}
+		tr.Put(base)
+	}
 
 	defer func() {
 		if r := recover(); r != nil {
-			fail("cred-panic", fmt.Sprint(r))
-			tr.Put(rec)
+			fail0("cred-panic", fmt.Sprint(r))
+			put0()
 		}
 	}()
 
-	pub, priv, err := bbs.GenerateKeyPair(sha256.New, keySeed(c.Key))
-	must(err)
+	if nested(c) { // other vocabulary: name is revealed, spouse hidden, degree per form
+		cc := *c
+		cc.Present, cc.Reveal, cc.Top, cc.TopRev = nil, nil, nil, nil
+		c = &cc
+		base.Case = c
+	}
 
-	pubB, _ := pub.Marshal()
-	privB, _ := priv.Marshal()
-	opub, _, _ := bbs.GenerateKeyPair(sha256.New, keySeed(c.Key+1000))
-	opubB, _ := opub.Marshal()
+	k := c.nBBS()
 	nonce := nonceBytes(c.Nonce)
 	ld := loader()
+
+	type ikey struct {
+		vm        string
+		pub, priv []byte
+	}
+
+	keys := make([]ikey, k)
+
+	for j := range keys {
+		pub, priv, err := bbs.GenerateKeyPair(sha256.New, keySeed(c.Key+10*j))
+		must(err)
+
+		keys[j].vm = fmt.Sprintf("did:example:489398593#key%d", j+1)
+		keys[j].pub, _ = pub.Marshal()
+		keys[j].priv, _ = priv.Marshal()
+	}
+
+	opub, _, _ := bbs.GenerateKeyPair(sha256.New, keySeed(c.Key+1000))
+	opubB, _ := opub.Marshal()
+
+	fetcher := func(issuerID, keyID string) (*sigverifier.PublicKey, error) {
+		for _, ik := range keys {
+			if strings.HasSuffix(ik.vm, keyID) {
+				return &sigverifier.PublicKey{Type: "Bls12381G2Key2020", Value: ik.pub}, nil
+			}
+		}
+
+		return nil, fmt.Errorf("key %s not found", keyID)
+	}
+	otherFetcher := func(issuerID, keyID string) (*sigverifier.PublicKey, error) {
+		return &sigverifier.PublicKey{Type: "Bls12381G2Key2020", Value: opubB}, nil
+	}
 
 	docMap := buildCred(c)
 	docBytes, _ := json.Marshal(docMap)
@@ -189,19 +297,36 @@ func runCred(kind string, c *CredCase, tr *hx.Trace) {
 	vc, err := verifiable.ParseCredential(docBytes, verifiable.WithJSONLDDocumentLoader(ld), verifiable.WithDisabledProofCheck())
 	must(err)
 
-	signSuite := bbsblssignature2020.New(suite.WithSigner(&bbsSigner{priv: privB}),
-		suite.WithVerifier(bbsblssignature2020.NewG2PublicKeyVerifier()))
-	must(vc.AddLinkedDataProof(&verifiable.LinkedDataProofContext{
-		SignatureType: "BbsBlsSignature2020", SignatureRepresentation: verifiable.SignatureProofValue,
-		Suite: signSuite, VerificationMethod: "did:example:123456#key1",
-	}, processor.WithDocumentLoader(ld)))
+	addEd := func() {
+		s, e := sigutil.NewSigner(kmsapi.ED25519Type)
+		must(e)
+		must(vc.AddLinkedDataProof(&verifiable.LinkedDataProofContext{
+			SignatureType: "Ed25519Signature2018", SignatureRepresentation: verifiable.SignatureProofValue,
+			Suite: ed25519signature2018.New(suite.WithSigner(s)), VerificationMethod: "did:example:489398593#ed",
+		}, processor.WithDocumentLoader(ld)))
+	}
 
-	fetch := verifiable.WithPublicKeyFetcher(verifiable.SingleKey(pubB, "Bls12381G2Key2020"))
+	if c.Ed && c.EdFirst {
+		addEd()
+	}
 
-	derived, err := vc.GenerateBBSSelectiveDisclosure(buildFrame(c), nonce, verifiable.WithJSONLDDocumentLoader(ld), fetch)
+	for j := range keys {
+		must(vc.AddLinkedDataProof(&verifiable.LinkedDataProofContext{
+			SignatureType: "BbsBlsSignature2020", SignatureRepresentation: verifiable.SignatureProofValue,
+			Suite:              bbsblssignature2020.New(suite.WithSigner(&bbsSigner{priv: keys[j].priv})),
+			VerificationMethod: keys[j].vm,
+		}, processor.WithDocumentLoader(ld)))
+	}
+
+	if c.Ed && !c.EdFirst {
+		addEd()
+	}
+
+	derived, err := vc.GenerateBBSSelectiveDisclosure(buildFrame(c), nonce, verifiable.WithJSONLDDocumentLoader(ld),
+		verifiable.WithPublicKeyFetcher(fetcher))
 	if err != nil {
-		fail("cred-derive-failed", err.Error())
-		tr.Put(rec)
+		fail0("cred-derive-failed-"+c.form(), err.Error())
+		put0()
 
 		return
 	}
@@ -209,29 +334,38 @@ func runCred(kind string, c *CredCase, tr *hx.Trace) {
 	derivedBytes, err := json.Marshal(derived)
 	must(err)
 
-	verifyWith := func(b []byte, n []byte, key []byte) string {
-		ps := bbsblssignatureproof2020.New(suite.WithCompactProof(),
-			suite.WithVerifier(bbsblssignatureproof2020.NewG2PublicKeyVerifier(n)))
-		v, _ := fenced(func() error {
-			_, e := verifiable.ParseCredential(b, verifiable.WithJSONLDDocumentLoader(ld),
-				verifiable.WithEmbeddedSignatureSuites(ps),
-				verifiable.WithPublicKeyFetcher(verifiable.SingleKey(key, "Bls12381G2Key2020")))
-			return e
-		})
-
-		return v
+	if os.Getenv("C17_DEBUG") != "" {
+		fmt.Fprintln(os.Stderr, string(derivedBytes))
 	}
 
-	// statements: original document vs derived document (no blank nodes: every node has an id)
+	verifyWith := func(b []byte, n []byte, f verifiable.PublicKeyFetcher) (string, string) {
+		ps := bbsblssignatureproof2020.New(suite.WithCompactProof(),
+			suite.WithVerifier(bbsblssignatureproof2020.NewG2PublicKeyVerifier(n)))
+
+		return fenced(func() error {
+			_, e := verifiable.ParseCredential(b, verifiable.WithJSONLDDocumentLoader(ld),
+				verifiable.WithEmbeddedSignatureSuites(ps), verifiable.WithPublicKeyFetcher(f))
+			return e
+		})
+	}
+
 	origMap := toMap(vc)
 	delete(origMap, "proof")
 
 	dm := map[string]interface{}{}
 	must(json.Unmarshal(derivedBytes, &dm))
 
-	proofVal := ""
-	if p, ok := dm["proof"].(map[string]interface{}); ok {
-		proofVal, _ = p["proofValue"].(string)
+	var proofs []map[string]interface{}
+
+	switch p := dm["proof"].(type) {
+	case map[string]interface{}:
+		proofs = append(proofs, p)
+	case []interface{}:
+		for _, x := range p {
+			if m, ok := x.(map[string]interface{}); ok {
+				proofs = append(proofs, m)
+			}
+		}
 	}
 
 	delete(dm, "proof")
@@ -241,6 +375,10 @@ func runCred(kind string, c *CredCase, tr *hx.Trace) {
 
 	derSt, err := canonLines(dm)
 	must(err)
+
+	for i := range origSt {
+		origSt[i] = processor.TransformBlankNode(origSt[i])
+	}
 
 	idx := map[string]int{}
 	for i, s := range origSt {
@@ -252,115 +390,190 @@ func runCred(kind string, c *CredCase, tr *hx.Trace) {
 	for _, s := range derSt {
 		i, ok := idx[s]
 		if !ok {
-			fail("cred-foreign-statement", "the derived credential contains a statement the issuer did not sign: "+s)
+			// with two blank nodes (form no-ids) the derived document's blank node labels are not the signer's:
+			// the statements cannot be mapped by text
+			if c.form() != "no-ids" {
+				fail0("cred-foreign-statement", "the derived credential contains a statement the issuer did not sign: "+s)
+			}
+
 			continue
 		}
 
 		rd = append(rd, i)
 	}
 
-	// only the selected statements: hidden values absent, revealed values present
 	ds := strings.Join(derSt, "\n")
 
 	for i, f := range c.Present {
 		has := strings.Contains(ds, fieldValue(f, c.Val+i))
 		if has != in(f, c.Reveal) {
-			fail("cred-wrong-disclosure", fmt.Sprintf("subject field %s: revealed=%v but present in derived=%v", f, in(f, c.Reveal), has))
+			fail0("cred-wrong-disclosure", fmt.Sprintf("subject field %s: revealed=%v but present in derived=%v", f, in(f, c.Reveal), has))
 		}
 	}
 
 	for i, f := range c.Top {
 		has := strings.Contains(ds, fieldValue(f, c.Val+20+i))
 		if has != in(f, c.TopRev) {
-			fail("cred-wrong-disclosure", fmt.Sprintf("member %s: revealed=%v but present in derived=%v", f, in(f, c.TopRev), has))
+			fail0("cred-wrong-disclosure", fmt.Sprintf("member %s: revealed=%v but present in derived=%v", f, in(f, c.TopRev), has))
 		}
 	}
 
-	proofBytes, err := base64.StdEncoding.DecodeString(proofVal)
-	if err != nil || len(proofBytes) < 2 {
-		fail("cred-proof-value", "no decodable proofValue")
-		tr.Put(rec)
-
-		return
+	if len(proofs) != k {
+		fail0("cred-proof-count", fmt.Sprintf("%d BBS+ signatures but %d derived proofs", k, len(proofs)))
 	}
 
-	count := int(proofBytes[0])<<8 | int(proofBytes[1])
-	np := count - len(origSt)
-	obs["statements"], obs["proof_statements"], obs["revealed_doc_indexes"] = len(origSt), np, rd
+	// the derived credential as a whole verifies against the issuer keys
+	whole, wd := verifyWith(derivedBytes, nonce, fetcher)
+	obs0["whole"], obs0["derived_proofs"], obs0["statements"], obs0["revealed_doc_indexes"] = whole, len(proofs), len(origSt), rd
 
-	if np < 1 {
-		fail("cred-count", fmt.Sprintf("message count %d of the proof is not proof statements + %d document statements", count, len(origSt)))
-		tr.Put(rec)
-
-		return
+	if whole != vAccept {
+		fail0("cred-honest-"+whole+c.formSuffix(), "the derived credential does not verify against the issuer keys: "+wd)
 	}
 
-	// verifier-side checks
-	atts := []Attack{{Kind: "honest"}, {Kind: "nonce", Pos: 0}, {Kind: "key"}}
-	vs := []string{verifyWith(derivedBytes, nonce, pubB), verifyWith(derivedBytes, nonceBytes(c.Nonce+1), pubB),
-		verifyWith(derivedBytes, nonce, opubB)}
-	expect := []string{vAccept, vReject, vReject}
+	put0()
 
-	// a revealed claim changed in the derived credential = one supplied message changed
-	all := append([]int{}, make([]int, 0)...)
-	for i := 0; i < np; i++ {
-		all = append(all, i)
-	}
-
-	for _, i := range rd {
-		all = append(all, np+i)
-	}
-
-	if len(c.Reveal) > 0 {
-		f := c.Reveal[0]
-		old := ""
-
-		for i, p := range c.Present {
-			if p == f {
-				old = fieldValue(f, c.Val+i)
+	// every derived proof on its own
+	for pi, pm := range proofs {
+		rec := &hx.Record{Kind: kind, Case: c, ID: fmt.Sprintf("%s-%d-proof%d", kind, tr.N(), pi)}
+		obs := map[string]interface{}{"proof_index": pi, "verificationMethod": pm["verificationMethod"]}
+		rec.Observed = obs
+		fail := func(sig, detail string) {
+			if rec.Oracle != "fail" {
+				rec.Oracle, rec.Sig, rec.Detail = "fail", sig, detail
 			}
 		}
 
-		tam := strings.Replace(string(derivedBytes), old, fieldValue(f, c.Val+777), 1)
-		// which statement changed: the one holding the old value
-		sup := make([]int, len(all))
-		for k, i := range all {
-			sup[k] = i + 1
-			if i >= np && strings.Contains(origSt[i-np], old) {
-				sup[k] = 9000
+		single := map[string]interface{}{}
+		for kk, v := range dm {
+			single[kk] = v
+		}
+
+		single["proof"] = pm
+		singleBytes, _ := json.Marshal(single)
+
+		proofVal, _ := pm["proofValue"].(string)
+
+		proofBytes, derr := base64.StdEncoding.DecodeString(proofVal)
+		if derr != nil || len(proofBytes) < 2 {
+			fail("cred-proof-value", "no decodable proofValue")
+			tr.Put(rec)
+
+			continue
+		}
+
+		count := int(proofBytes[0])<<8 | int(proofBytes[1])
+		np := count - len(origSt)
+		obs["proof_statements"] = np
+
+		if np < 1 {
+			fail("cred-count", fmt.Sprintf("message count %d of the proof is not proof statements + %d document statements", count, len(origSt)))
+			tr.Put(rec)
+
+			continue
+		}
+
+		atts := []Attack{{Kind: "honest"}, {Kind: "nonce", Pos: 0}, {Kind: "key"}}
+		v0, d0 := verifyWith(singleBytes, nonce, fetcher)
+		v1, _ := verifyWith(singleBytes, nonceBytes(c.Nonce+1), fetcher)
+		v2, _ := verifyWith(singleBytes, nonce, otherFetcher)
+		vs := []string{v0, v1, v2}
+		expect := []string{vAccept, vReject, vReject}
+
+		var all []int
+
+		for i := 0; i < np; i++ {
+			all = append(all, i)
+		}
+
+		for _, i := range rd {
+			all = append(all, np+i)
+		}
+
+		if len(c.Reveal) > 0 {
+			f := c.Reveal[0]
+			old := ""
+
+			for i, p := range c.Present {
+				if p == f {
+					old = fieldValue(f, c.Val+i)
+				}
+			}
+
+			tam := strings.Replace(string(singleBytes), old, fieldValue(f, c.Val+777), 1)
+			sup := make([]int, len(all))
+
+			for kk, i := range all {
+				sup[kk] = i + 1
+				if i >= np && strings.Contains(origSt[i-np], old) {
+					sup[kk] = 9000
+				}
+			}
+
+			atts = append(atts, Attack{Kind: "supplied", Label: "claim-changed", Supplied: sup})
+			v3, _ := verifyWith([]byte(tam), nonce, fetcher)
+			vs = append(vs, v3)
+			expect = append(expect, vReject)
+		}
+
+		for i := range vs {
+			if vs[i] != expect[i] {
+				d := ""
+				if i == 0 {
+					d = ": " + d0
+				}
+
+				fail(fmt.Sprintf("cred-%s-%s%s", atts[i].Kind+atts[i].Label, vs[i], c.formSuffix()),
+					fmt.Sprintf("derived proof #%d (%v), check %d (%s %s): expected %s, got %s%s", pi+1, pm["verificationMethod"],
+						i, atts[i].Kind, atts[i].Label, expect[i], vs[i], d))
 			}
 		}
 
-		atts = append(atts, Attack{Kind: "supplied", Label: "claim-changed", Supplied: sup})
-		vs = append(vs, verifyWith([]byte(tam), nonce, pubB))
-		expect = append(expect, vReject)
-	}
+		obs["verdicts"] = vs
 
-	for i := range vs {
-		if vs[i] != expect[i] {
-			fail(fmt.Sprintf("cred-%s-%s", atts[i].Kind+atts[i].Label, vs[i]),
-				fmt.Sprintf("credential-level check %d (%s %s): expected %s, got %s", i, atts[i].Kind, atts[i].Label, expect[i], vs[i]))
+		mc := &Case{Level: "cred", Nonce: c.Nonce, Key: c.Key + 10*pi, R: all, Attacks: atts}
+		for i := 0; i < count; i++ {
+			mc.Msgs = append(mc.Msgs, i+1)
 		}
+
+		o := &Obs{Verdicts: vs, ProofLen: len(proofBytes), Intact: true}
+		for _, b := range proofBytes[:min(2+count/8+1, len(proofBytes))] {
+			o.Payload = append(o.Payload, int(b))
+		}
+
+		if len(rd) == len(derSt) { // the statement mapping is complete: tie it to the model
+			rec.Coq = coqCase(mc, o, nil)
+		}
+
+		rec.Class = fmt.Sprintf("cred form=%s bbs=%d/%d ed=%v present=%v reveal=%v top=%v/%v", c.Form, pi+1, k, c.Ed, c.Present, c.Reveal, c.Top, c.TopRev)
+		rec.Dist = []string{"level:cred-proof", fmt.Sprintf("statements:%d", bucket(count)), fmt.Sprintf("revealed:%d", bucket(len(all))),
+			fmt.Sprintf("subject-fields-revealed:%d/%d", len(c.Reveal), len(c.Present)), fmt.Sprintf("cred-proof-index:%d", pi)}
+		tr.Put(rec)
+	}
+}
+
+func (c *CredCase) nBBS() int {
+	if c.BBS < 1 {
+		return 1
 	}
 
-	obs["verdicts"] = vs
+	return c.BBS
+}
 
-	// the case as the model sees it: statements 1..count, revealed = proof statements + the derived document's
-	mc := &Case{Level: "cred", Nonce: c.Nonce, Key: c.Key, R: all, Attacks: atts}
-	for i := 0; i < count; i++ {
-		mc.Msgs = append(mc.Msgs, i+1)
+func (c *CredCase) form() string {
+	if c.Form == "" {
+		return "ids"
 	}
 
-	o := &Obs{Verdicts: vs, ProofLen: len(proofBytes), Intact: true}
-	for _, b := range proofBytes[:min(2+count/8+1, len(proofBytes))] {
-		o.Payload = append(o.Payload, int(b))
+	return c.Form
+}
+
+// formSuffix distinguishes the signatures of credentials with blank nodes from those where every node has an id.
+func (c *CredCase) formSuffix() string {
+	if c.form() == "ids" {
+		return ""
 	}
 
-	rec.Coq = coqCase(mc, o, nil)
-	rec.Class = fmt.Sprintf("cred present=%v reveal=%v top=%v/%v", c.Present, c.Reveal, c.Top, c.TopRev)
-	rec.Dist = []string{"level:cred", fmt.Sprintf("statements:%d", bucket(count)), fmt.Sprintf("revealed:%d", bucket(len(all))),
-		fmt.Sprintf("subject-fields-revealed:%d/%d", len(c.Reveal), len(c.Present))}
-	tr.Put(rec)
+	return "-" + c.form()
 }
 
 func pick(r *hx.Rng, pool []string, p int) []string {
@@ -381,6 +594,10 @@ func randomCred(r *hx.Rng) *CredCase {
 	c.Reveal = pick(r, c.Present, []int{0, 30, 50, 100}[r.Intn(4)])
 	c.Top = pick(r, topPool, 60)
 	c.TopRev = pick(r, c.Top, 50)
+	c.BBS = []int{1, 1, 2, 2, 3}[r.Intn(5)]
+	c.Ed = r.Intn(3) == 0
+	c.EdFirst = r.Bool()
+	c.Form = []string{"ids", "ids", "ids", "ids", "blank-subject", "blank-subject-uuid", "blank-subject-uuid", "no-ids"}[r.Intn(8)]
 
 	return c
 }
